@@ -320,6 +320,16 @@ func replayOnce(u *unit, bin, prop, replayPath, outDir string, raw bool) (*failu
 	if err := json.Unmarshal(rb, &wr); err != nil {
 		return nil, "bad replay result"
 	}
+	if wr.Failure == nil {
+		// an enumeration engine walks past recorded findings: report what it met
+		for _, es := range wr.Engines {
+			for k, n := range es.Known {
+				if n > 0 && !strings.HasPrefix(k, "COLLECT ") {
+					fmt.Printf("KNOWN-FINDING: property=%s replay of %s meets a recorded finding %d time(s) (%s)\n", prop, filepath.Base(replayPath), n, k)
+				}
+			}
+		}
+	}
 	return wr.Failure, out.String()
 }
 
